@@ -620,3 +620,62 @@ def check_cancelled_variables(case):
         if not close(r.value, want):
             return Fail("value %r but the model evaluates to %r at %r" % (r.value, want, r.state), key="value")
     return None
+
+
+# ---------------------------------------------------------------------------------------------
+# enumerations chosen with set_mapping before the terms are entered
+# ---------------------------------------------------------------------------------------------
+PREMAPS = [[('a', 0), ('b', 1), ('c', 2), ('d', 3)], [('a', 0), ('c', 5), ('d', 2)],
+           [('d', 0), ('c', 1), ('a', 2), ('zz', 7)], [('a', 3), ('c', 4), ('d', 9)]]
+
+
+def _gen_premap(ctx):
+    for fn in FNS:
+        for tname in TYPES[fn]:
+            if tname == "dict" or tname in MATRIX:
+                continue
+            models = [{('a', 'd'): 1, ('c',): -1}, {('a',): 1}, {('d', 'c'): -2, ('a', 'c'): 1, (): 3}]
+            if fn in ("puso", "pubo") and not tname.startswith("Q"):
+                models.append({('a', 'd', 'c'): 1, ('d',): 0.5})
+            for terms in models:
+                for pm in PREMAPS:
+                    for kwset in ({"num_anneals": 2, "anneal_duration": 2, "seed": 5},
+                                  {"num_anneals": 1, "schedule": [3, 0], "in_order": False, "seed": 1, "init": True}):
+                        kw = {k: v for k, v in kwset.items() if k != "init"}
+                        if kwset.get("init"):
+                            kw["initial_state"] = {l: (1 if SPIN_FN[fn] else 0) for l in variables_of(terms)}
+                        yield {"fn": fn, "type": tname, "terms": dict(terms), "premap": pm, "kw": kw}
+
+
+@clause("C11.user_mapping_before_terms", "C11", gen=_gen_premap, nontrivial=lambda c: True)
+def check_premap(case):
+    """The enumeration is chosen first with set_mapping (it may name labels the model never uses, and integers with
+    gaps), the terms are entered afterwards: every result assigns exactly the model's variables, with values in the
+    right domain, and its value equals the model at the state."""
+    pf = preflight()
+    if pf is not None:
+        return pf
+    q = fresh_qubovert()
+    fn = getattr(q.sim, "anneal_" + case["fn"])
+    spin = SPIN_FN[case["fn"]]
+    M = cls_of(case["type"])()
+    M.set_mapping(dict(case["premap"]))
+    for k, v in case["terms"].items():
+        M[k] += v
+    exp = variables_of(case["terms"])
+    res = fn(M, **case["kw"])
+    f = _aspect_count(case, res)
+    if f:
+        return f
+    dom = (1, -1) if spin else (0, 1)
+    for r in res:
+        ks = list(r.state.keys())
+        if len(ks) != len(exp) or set(ks) != set(exp):
+            return Fail("anneal_%s on a %s with the user mapping %r: state keys %r, model variables %r"
+                        % (case["fn"], case["type"], case["premap"], ks, exp), key="keys:user-mapping")
+        if any(not any(v == d for d in dom) for v in r.state.values()):
+            return Fail("state values %r outside %r" % (r.state, dom), key="domain")
+        want = peval(case["terms"], r.state)
+        if not close(r.value, want):
+            return Fail("value %r but the model evaluates to %r at %r" % (r.value, want, r.state), key="value")
+    return None
